@@ -104,11 +104,49 @@ Case(k) ==
 Params(c) == [ivtOff |-> c.ivtOff, ils |-> c.ils, appLen |-> c.appLen, flags |-> c.flags, cfgKind |-> c.cfg, cfgLen |-> c.cfgLen,
               dekLen |-> c.dekLen]
 
+(* ---- HISTORIES of builds in one process (R-spec: HabHist.tla).  A history = 2..3 builds, each from a project "a" / "b": two PKI   *)
+(* trees made with the same parameters (same file names, different keys - /verif/keys/hab/<tree> and <tree>_b), each with its own      *)
+(* configuration directory = search path.  Every build of a history names its keys / certificates by the SAME relative strings          *)
+(* (naming = "rel": ../keys/<name>_key.pem, ../crts/<name>_crt.pem; same tree parameters, same SRK index, same key-path variant), so the *)
+(* strings are equal and the files they resolve to differ.  Primary (every tier): key tree x key-path variant (private key file /      *)
+(* signature-provider string / path derived from the certificate path) with the shape <<a, b>>, further shapes; flags, layout, sizes, DCD / XMCD, *)
+(* CSF command set ... of each build come from a primary case by index.                                                              *)
+HShapes == IF Full THEN << <<"a", "b">>, <<"b", "a", "b">>, <<"a", "a", "b">>, <<"a", "b", "a">> >>
+                   ELSE << <<"a", "b">>, <<"b", "a", "b">> >>
+\* quick tier: the shape <<a, b>> for every tree x variant, the three-build shape for every tree with one variant (by index)
+HPrim == { p \in [tree : 1..Len(Trees), kv : 1..Len(KeyVars), shape : 1..Len(HShapes), rep : 0..(Reps - 1)] :
+             Full \/ p.shape = 1 \/ p.kv = ((p.tree + Seed) % Len(KeyVars)) + 1 }
+HPrimSeq == SetToSeq(HPrim)
+HFlagPat == << <<"auth", "auth", "enc">>, <<"auth", "enc", "auth">>, <<"enc", "auth", "auth">>, <<"enc", "enc", "enc">> >>
+HistIdBase == 100000
+Hist(h) ==
+  LET p == HPrimSeq[h]
+      x == h + Seed + 7919 * p.rep
+      tree == Trees[p.tree]
+      src == (x \div 5) % 4
+      shape == HShapes[p.shape]
+      pat == Pick(HFlagPat, x)
+      B(i) == LET c == Case(((x * 31 + 101 * i) % Len(PrimSeq)) + 1)
+              IN [c EXCEPT !.id = HistIdBase + 10 * h + i, !.rep = p.rep, !.tree = tree, !.fast = IsFast(tree),
+                           !.tgt = IF IsFast(tree) THEN 0 ELSE 2 + ((x + i) % 4), !.flags = pat[i], !.keyvar = KeyVars[p.kv],
+                           !.src = src, !.nSrk = IF c.nSrk > src THEN c.nSrk ELSE src + 1]
+                 @@ [proj |-> shape[i], naming |-> "rel", hid |-> h, pos |-> i]
+  IN [hid |-> h, tree |-> tree, keyvar |-> KeyVars[p.kv], src |-> src, shape |-> shape, rep |-> p.rep,
+      builds |-> [i \in 1..Len(shape) |-> B(i)]]
+\* the class the history dimension is there for: two builds of different projects whose key / certificate names are equal
+HistReachesClass(hh) == \E i, j \in 1..Len(hh.builds) :
+                          /\ i < j /\ hh.builds[i].proj # hh.builds[j].proj
+                          /\ hh.builds[i].tree = hh.builds[j].tree /\ hh.builds[i].src = hh.builds[j].src
+                          /\ hh.builds[i].keyvar = hh.builds[j].keyvar /\ hh.builds[i].naming = "rel" /\ hh.builds[j].naming = "rel"
+
+NCases == Len(PrimSeq)
 VARIABLE k
-Init == k \in 1..Len(PrimSeq)
+Init == k \in 1..(NCases + Len(HPrimSeq))
 Next == UNCHANGED k
-DocumentedLayoutOK == /\ LayoutOK(Params(Case(k)), Layout(Params(Case(k))), 4096)
-                      /\ (Case(k).dcdShape \notin {"gen", "none"} =>
-                            DcdWellFormed(210, Case(k).cfgLen, Case(k).dcdVer, Case(k).dcdCmds))
-Emit == PrintT(ToJson(Case(k)))
+CaseLayoutOK(c) == /\ LayoutOK(Params(c), Layout(Params(c)), 4096)
+                   /\ (c.dcdShape \notin {"gen", "none"} => DcdWellFormed(210, c.cfgLen, c.dcdVer, c.dcdCmds))
+DocumentedLayoutOK == IF k <= NCases THEN CaseLayoutOK(Case(k))
+                      ELSE LET hh == Hist(k - NCases) IN /\ \A i \in 1..Len(hh.builds) : CaseLayoutOK(hh.builds[i])
+                                                         /\ HistReachesClass(hh)
+Emit == PrintT(ToJson(IF k <= NCases THEN Case(k) ELSE Hist(k - NCases)))
 =============================================================================
